@@ -847,13 +847,15 @@ pub(crate) fn check_if_response_is_matched(
                 return Err(StatusCode::MalformedProtocolMessage.with_context(errmsg));
             } else {
                 // More than last n blocks are missing, but no block is sampled: every requested
-                // difficulty has to be in the last n blocks, which have to be complete.
+                // difficulty has to be in the last n blocks, which have to be complete (they are
+                // more than n when more than n blocks follow the block which reaches the
+                // difficulty boundary).
                 let difficulty_boundary: U256 = prev_request.difficulty_boundary().unpack();
                 let parent_total_difficulty: U256 = headers[reorg_count]
                     .parent_chain_root()
                     .total_difficulty()
                     .unpack();
-                if last_n_count != last_n_blocks || parent_total_difficulty >= difficulty_boundary {
+                if last_n_count < last_n_blocks || parent_total_difficulty >= difficulty_boundary {
                     let errmsg = format!(
                         "there should be the last {} blocks since the first block which reaches \
                         the difficulty boundary ({:#x}), but got [{}, {}]",
